@@ -34,7 +34,7 @@ ASSUMPTIONS = [
     'anything else (KeyError, AttributeError, IndexError, RecursionError, interpreter-raised TypeError) is '
     'an internal error',
     'family: %d models x their valid port configurations x facility origin x namespace prefix (%d valid '
-    'cases), each also with every applicable single fault from a list of 26; models are well-formed '
+    'cases), each also with every applicable single fault from a list of 28; models are well-formed '
     '(event parameters typed by externs)' % (len(fam.MODELS), len(fam.VALID)),
     'each path fixes (case, fault) by solver-checked branching and runs the real code; a per-path '
     'timeout acts as the watchdog (a timeout is inconclusive, not a violation)',
@@ -107,6 +107,21 @@ def _bad_model(m: fam.Model, mode: str):
             doc['elements'].append(dg.interface([first_itf], []))          # also visible on the chain
         else:
             doc['elements'].append(dg.interface([first_itf], [dg.event('dup')]))   # same fqn twice
+    if mode in ('claim_reply_extern', 'claim_reply_subint'):
+        port, claim, _val, _rel = fam.MC_FOR[m.label]
+        mc_itf = next(pp.itf for pp in m.ports if pp.name == port)
+
+        def retype(elements):
+            for el in elements:
+                if isinstance(el, dict) and el.get('<class>') == 'namespace':
+                    retype(el['elements'])
+                elif isinstance(el, dict) and el.get('<class>') == 'interface' and el['name']['ids'] == [mc_itf]:
+                    if mode == 'claim_reply_subint':
+                        el['types']['elements'].append(dg.subint(['Cnt'], 0, 3))
+                    for ev in el['events']['elements']:
+                        if ev['name'] == claim:
+                            ev['signature']['type_name'] = dg.sn('TInt' if mode == 'claim_reply_extern' else 'Cnt')
+        retype(doc['elements'])
     if mode == 'wrongkind':
         # the port type name resolves to an enum only
         def retag(elements):
@@ -164,7 +179,7 @@ def build_fault(case: fam.Case, base_cfg: PortsCfg, fault: int) -> Optional[Call
         return None if not reqs else mk(lambda: PortsCfg(PortsSemanticsCfg(_NONE, _sel(reqs[0])),
                                                          base_cfg.requires, mc))
     # ---- multi-client faults (on multi-client models with their all_mts style configuration)
-    if fault >= 15 and mc is not None:
+    if fault >= 15 and mc is not None and base_cfg.multiclient is not None:
         port, claim, val, rel = fam.MC_FOR[m.label]
         mc_itf = next(i for i in m.itfs if i.name == next(p.itf for p in m.ports if p.name == port))
         out_events = [e.name for e in mc_itf.events if e.direction == 'out']
@@ -184,6 +199,9 @@ def build_fault(case: fam.Case, base_cfg: PortsCfg, fault: int) -> Optional[Call
             return mk(lambda: PortsCfg(base_cfg.provides, base_cfg.requires, variants[fault]()))
         if fault == 23:  # multi-client port configured single-threaded
             return mk(lambda: PortsCfg(PortsSemanticsCfg(_ALL, _NONE), base_cfg.requires, mc))
+        if fault in (26, 27):  # the claim event replies with a resolvable type that is not an enum
+            fc = _bad_model(m, 'claim_reply_extern' if fault == 26 else 'claim_reply_subint')
+            return mk(base_cfg, fc=fc)
     if fault == 15 and mc is None and provs:
         # multi-client settings on a model whose port cannot carry them
         itf = next(i for i in m.itfs if i.name == next(p.itf for p in m.ports if p.name == provs[0]))
@@ -194,7 +212,7 @@ def build_fault(case: fam.Case, base_cfg: PortsCfg, fault: int) -> Optional[Call
     return None
 
 
-NFAULTS = 26
+NFAULTS = 28
 
 
 def _valid_case(ci: int) -> bool:
